@@ -161,11 +161,15 @@ def rxSearch (r : Rx) (s : Str) : Bool :=
 inductive Pat where
   | plain (k : Str)
   | regex (r : Rx)
+  /-- an expression outside the modelled family (groups, back-references, alternation, inline flags …): its
+  semantics is a parameter, given extensionally as the lines on which the expression, TAKEN BY ITSELF, matches -/
+  | ext (hits : List Str)
 
 /-- the concrete matcher: `pat in line` / `re.search(pat, line)` -/
 def Pat.hit : Pat → Str → Bool
   | .plain k, s => contains k s
   | .regex r, s => rxSearch r s
+  | .ext hits, s => hits.contains s
 
 /-- Pattern.parse_line for an arbitrary matcher -/
 def patternStage (hit : Pat → Str → Bool) (pats : List Pat) (line : Option PStr) : Option PStr :=
